@@ -20,6 +20,9 @@ pub enum FaultCase {
     /// an input saved by a libFuzzer target (first two bytes select the type from the target's list)
     FuzzArtifact { target: String, bytes: Vec<u8> },
     Raw { ty: Ty, bytes: Vec<u8> },
+    /// a valid encoding of one definition read with ANOTHER definition of the same (possibly illegally evolved)
+    /// record: version `w` writes, version `r` reads; then tampered
+    CrossDef { spec: vmodel::declgen::HistorySpec, w: usize, r: usize, val: Val, ops: Vec<TOp> },
     Tampered {
         ty: Ty,
         val: Val,
@@ -77,8 +80,34 @@ pub fn materialize(c: &FaultCase) -> Option<(Ty, Vec<u8>, Vec<u8>, String)> {
             let label = if applied.kinds.is_empty() { "untouched".to_string() } else { applied.kinds.join(" + ") };
             Some((ty.clone(), bytes, frag.bytes, label))
         }
+        FaultCase::CrossDef { spec, w, r, val, ops } => {
+            let versions = vmodel::declgen::build_history_opts(spec, &vmodel::declgen::dynamic_menu(true), true);
+            if *w >= versions.len() || *r >= versions.len() {
+                return None;
+            }
+            let name = |i: usize| format!("DynX{:08x}v{i}", hash_json(spec) as u32);
+            let tw = Ty::Adt(vmodel::declgen::struct_decl(&name(*w), &versions[*w]));
+            let tr = Ty::Adt(vmodel::declgen::struct_decl(&name(*r), &versions[*r]));
+            let frag = ref_encode(&tw, val).ok()?;
+            let (bytes, applied) = apply(&frag, ops, None);
+            Some((tr, bytes, frag.bytes, format!("written by version {w}, read by version {r} of a relaxed history{}", if applied.kinds.is_empty() { String::new() } else { format!(" + {}", applied.kinds.join(" + ")) })))
+        }
         FaultCase::Ops(_) => None,
     }
+}
+
+pub fn crossdef_strategy() -> BoxedStrategy<FaultCase> {
+    let cfg = ValCfg { max_len: 4, long: false, ..ValCfg::default() };
+    (vmodel::declgen::history_spec_strategy(5, 7), any::<u16>(), any::<u16>(), prop_oneof![3 => Just(vec![]), 1 => tops_strategy()])
+        .prop_flat_map(move |(spec, ws, rs, ops)| {
+            let versions = vmodel::declgen::build_history_opts(&spec, &vmodel::declgen::dynamic_menu(true), true);
+            let w = vmodel::gen::pick(ws, versions.len());
+            let r = vmodel::gen::pick(rs, versions.len());
+            let tw = Ty::Adt(vmodel::declgen::struct_decl("DynXw", &versions[w]));
+            (Just(spec), Just(w), Just(r), vmodel::gen::val_strategy(&tw, cfg), Just(ops))
+        })
+        .prop_map(|(spec, w, r, val, ops)| FaultCase::CrossDef { spec, w, r, val, ops })
+        .boxed()
 }
 
 // ------------------------------------------------------------------------------------------------ C05
@@ -166,7 +195,7 @@ pub fn check_c05(c: &FaultCase, acc: &mut Acc, record: bool) -> Verdict {
     }
     if record {
         let valid = matches!(&pre, Ok((_, used)) if *used == bytes.len());
-        let class = format!("{} / {}", match c { FaultCase::Raw { .. } => "raw", _ => "tampered" }, root_class(&ty));
+        let class = format!("{} / {}", match c { FaultCase::Raw { .. } => "raw", FaultCase::CrossDef { .. } => "other definition", _ => "tampered" }, root_class(&ty));
         acc.case(&class, hash_json(&(&ty, &bytes)), !valid && !bytes.is_empty());
         if !valid && acc.wants_sample(&class) {
             acc.sample(&class, json!({"type": ty.render(), "input_hex": hex(&bytes[..bytes.len().min(80)]), "fault": label, "reference_decoder": format!("{:?}", pre.as_ref().map(|(v, n)| (v.brief(), *n)))}));
@@ -256,6 +285,7 @@ fn c05_strategy(stream: u64) -> BoxedStrategy<FaultCase> {
     match stream {
         1 => raw_strategy(),
         2 => tampered_strategy(),
+        4 => crossdef_strategy(),
         _ => ops_strategy().prop_map(FaultCase::Ops).boxed(),
     }
 }
@@ -268,7 +298,7 @@ pub fn run_c05(cx: &Cx) -> PropResult {
         if run_exhaustive(cx, shard, acc) {
             return;
         }
-        for (stream, n) in [(1u64, n_raw), (2, n_tam), (3, n_ops)] {
+        for (stream, n) in [(1u64, n_raw), (2, n_tam), (3, n_ops), (4, n_raw)] {
             let strat = c05_strategy(stream);
             if drive(tag_seed(derive_seed(cx.seed, cx.prop, shard as u64, stream), stream), &strat, n, acc, &|c: &FaultCase| to_json(c), &mut |c, a, r| check_c05(c, a, r)) {
                 return;
@@ -387,7 +417,7 @@ pub fn check_c06(c: &FaultCase, acc: &mut Acc, record: bool) -> Verdict {
             (Err(_), Ok(_)) => "rejected by desert, accepted by the reference (stricter than required: not a C06 matter)",
             (Ok(_), Err(_)) => "accepted by desert only",
         };
-        let class = format!("{} / {}", match c { FaultCase::Raw { .. } => "raw", _ => "tampered" }, outcome);
+        let class = format!("{} / {}", match c { FaultCase::Raw { .. } => "raw", FaultCase::CrossDef { .. } => "other definition", _ => "tampered" }, outcome);
         acc.case(&class, hash_json(&(&ty, &bytes)), tampered && real.is_ok());
         if real.is_err() && reference.is_err() {
             acc.bump("faulty_inputs_rejected_by_both", 1);
@@ -412,6 +442,7 @@ pub fn check_c06(c: &FaultCase, acc: &mut Acc, record: bool) -> Verdict {
 fn c06_strategy(stream: u64) -> BoxedStrategy<FaultCase> {
     match stream {
         1 => raw_strategy(),
+        3 => crossdef_strategy(),
         _ => tampered_strategy(),
     }
 }
@@ -420,7 +451,7 @@ pub fn run_c06(cx: &Cx) -> PropResult {
     let n_raw = cx.n(12_000, 400_000);
     let n_tam = cx.n(50_000, 1_500_000);
     let acc = parallel(cx, &|shard, acc| {
-        for (stream, n) in [(1u64, n_raw), (2, n_tam)] {
+        for (stream, n) in [(1u64, n_raw), (2, n_tam), (3, n_tam / 2)] {
             let strat = c06_strategy(stream);
             if drive(tag_seed(derive_seed(cx.seed, cx.prop, shard as u64, stream), stream), &strat, n, acc, &|c: &FaultCase| to_json(c), &mut |c, a, r| check_c06(c, a, r)) {
                 return;
@@ -432,7 +463,7 @@ pub fn run_c06(cx: &Cx) -> PropResult {
     let mut r = PropResult::new(
         acc,
         "fault_enumeration",
-        "inputs: structure-aware tamperings (as C05 (c)) of valid reference encodings of generated (type, value) pairs — built-in types and derived declarations with evolution headers at top level and embedded in Vec / tuple / Option / map — plus raw byte strings. Oracle (implication only): desert::deserialize(t(e)) == Ok(v) implies ref_decode(T, t(e)) == Ok(v), ref_decode being the strict reference decoder with exactly the leniencies of DESIGN section 4.5; Err-vs-Ok is logged, not failed. Non-trivial = the bytes differ from the original encoding and desert accepted them; coverage.counters.faulty_inputs_rejected_by_both counts the rest.",
+        "inputs: structure-aware tamperings (as C05 (c)) of valid reference encodings of generated (type, value) pairs — built-in types and derived declarations with evolution headers at top level and embedded in Vec / tuple / Option / map — plus raw byte strings, plus valid encodings of one definition read with another definition of the same record taken from a *relaxed* history (removals may hit any field, so readers meet header / layout combinations that legal histories never produce), optionally tampered. Oracle (implication only): desert::deserialize(t(e)) == Ok(v) implies ref_decode(T, t(e)) == Ok(v), ref_decode being the strict reference decoder with exactly the leniencies of DESIGN section 4.5; Err-vs-Ok is logged, not failed. Non-trivial = the bytes differ from the original encoding and desert accepted them; coverage.counters.faulty_inputs_rejected_by_both counts the rest.",
     );
     r.assumptions = vec!["the reference decoder is at least as lenient as the format requires (DESIGN section 4.5) — a discrepancy found here is triaged as model gap or defect before anything is reported".into()];
     r
